@@ -1,5 +1,5 @@
 use crate::{
-    check_spec_reserved_keys, Enr, EnrKey, EnrPublicKey, Error, Key, NodeId, MAX_ENR_SIZE,
+    check_signing_key, check_spec_reserved_keys, Enr, EnrKey, EnrPublicKey, Error, Key, NodeId, MAX_ENR_SIZE,
 };
 use crate::{
     ENR_VERSION, ID_ENR_KEY, IP6_ENR_KEY, IP_ENR_KEY, TCP6_ENR_KEY, TCP_ENR_KEY, UDP6_ENR_KEY,
@@ -155,9 +155,11 @@ impl<K: EnrKey> Builder<K> {
     /// Signs record based on the identity scheme. Currently only "v4" is supported.
     fn signature(&self, key: &K) -> Result<Vec<u8>, Error> {
         match self.id.as_str() {
-            "v4" => key
-                .sign_v4(&self.rlp_content())
-                .map_err(|_| Error::SigningError),
+            "v4" => {
+                check_signing_key(&self.content, key)?;
+                key.sign_v4(&self.rlp_content())
+                    .map_err(|_| Error::SigningError)
+            }
             // unsupported identity schemes
             _ => Err(Error::SigningError),
         }
